@@ -172,7 +172,16 @@ class ActionDefinition:
         elif isinstance(config, dict):
             # 📝 Handle object definition: {"type": "myAction", ...}
             logger.debug("🔧 Parsing action definition from dict: %s", config)
-            self.type: str = config.get("type", "UnknownAction")
+            action_type = config.get("type", "UnknownAction")
+            # 🛡️ The type is looked up by name and prefix-matched at run time;
+            #    anything but a string used to surface there as a raw
+            #    `AttributeError` from inside `start()` or `send()`.
+            if not isinstance(action_type, str):
+                raise InvalidConfigError(
+                    f"Action 'type' must be a string, got "
+                    f"'{type(action_type).__name__}' in {config!r}."
+                )
+            self.type: str = action_type
             self.params: Optional[Dict[str, Any]] = config.get("params")
         else:
             # ❌ Reject invalid definitions
